@@ -370,7 +370,7 @@ theorem issued_names_allowed (e : Env) (role : Role) (req : Req) (c : Cert) (hep
       ∀ n, n ∈ (finish e role req key nm ips uris v).dns ∨ n ∈ (finish e role req key nm ips uris v).emails →
         nameAllowed role.names n := by
     intro nm key ips uris v hb n hn
-    obtain ⟨hd, hem⟩ := buildNames_ok hb
+    obtain ⟨hd, hem, _, _⟩ := buildNames_ok hb
     unfold finish at hn
     simp only [hv] at hn
     rcases hn with hn | hn
@@ -384,6 +384,40 @@ theorem issued_names_allowed (e : Env) (role : Role) (req : Req) (c : Cert) (hep
   all_goals first
     | contradiction
     | (simp only [Res.ok.injEq] at h; rw [← h]; apply key; assumption)
+
+/-- **The Subject serialNumber is one the role permits.**  Every certificate from issue/<role> or sign/<role> carries
+either no Subject serialNumber or one that an entry of the role's `allowed_serial_numbers` permits — whether it came in
+through the `serial_number` parameter or through the Subject of the CSR (a role with an empty list permits none). -/
+theorem issued_subject_serial_allowed (e : Env) (role : Role) (req : Req) (c : Cert) (hep : req.ep ≠ .verbatim)
+    (h : process e role req = .ok c) :
+    c.subjSerial = chosenSerial req ∧ (c.subjSerial ≠ [] → serialAllowed role c.subjSerial = true) := by
+  have hv : (req.ep == Endpoint.verbatim) = false := by
+    cases hq : req.ep <;> simp_all
+  have key : ∀ (nm : Names) key ips uris v, buildNames role req = .ok nm →
+      (finish e role req key nm ips uris v).subjSerial = chosenSerial req ∧
+      ((finish e role req key nm ips uris v).subjSerial ≠ [] →
+        serialAllowed role (finish e role req key nm ips uris v).subjSerial = true) := by
+    intro nm key ips uris v hb
+    obtain ⟨_, _, hs1, hs2⟩ := buildNames_ok hb
+    have hf : (finish e role req key nm ips uris v).subjSerial = nm.serial := by
+      unfold finish
+      simp only [hv]
+      rfl
+    rw [hf]
+    exact ⟨hs1, hs2⟩
+  unfold process at h
+  simp only [hv] at h
+  repeat' (split at h)
+  all_goals first
+    | contradiction
+    | (simp only [Res.ok.injEq] at h; rw [← h]; apply key; assumption)
+
+/-- a serial taken from the CSR without the role's check (the seeded change C15-4): the witness role permits `dev-*`
+only and the CSR asks for `prod-1` -/
+theorem csr_serial_unchecked_cex :
+    serialAllowedIn [str "dev-*", str "ops-42"] (str "prod-1") = false ∧
+    serialAllowedIn [str "dev-*", str "ops-42"] (str "dev-7") = true ∧
+    serialAllowedIn [] (str "x") = false := by decide
 
 /-- **IP SANs stay inside the role's networks.**  Every IP SAN of a certificate from issue/<role> or sign/<role>
 (API `ip_sans` or the CSR's addresses under `use_csr_sans`) is permitted by `allow_ip_sans`, and — when the role lists
